@@ -59,17 +59,19 @@ func (t tfail) Logf(f string, a ...interface{}) {
 
 var (
 	fuzzConsOnce sync.Once
-	fuzzConsEnv  *consEnv
+	fuzzConsEnvs [2]*consEnv // 0: established chain, node in the prevote step; 1: fresh chain, first height, before round 0
+	fuzzConsDead [2]bool     // the node's consensus has halted (reported once)
 	fuzzConsMu   sync.Mutex
 )
 
-func consFuzzEnv(tb testing.TB) *consEnv {
+func consFuzzEnv(tb testing.TB, i int) *consEnv {
 	fuzzConsOnce.Do(func() {
 		e := newConsEnv(tfail{tb}, 4, 3, -1, 1)
 		e.drive("prevotes")
-		fuzzConsEnv = e
+		fuzzConsEnvs[0] = e
+		fuzzConsEnvs[1] = newConsEnv(tfail{tb}, 4, 0, -1, 1)
 	})
-	return fuzzConsEnv
+	return fuzzConsEnvs[i]
 }
 
 var consFuzzChans = []byte{consensus.StateChannel, consensus.DataChannel, consensus.VoteChannel, consensus.VoteSetBitsChannel}
@@ -198,6 +200,16 @@ func consSeeds(e *consEnv) [][2]interface{} {
 	return seeds
 }
 
+// consPrecommitBelow: is this a precommit for the height just below h? (signature of a known finding)
+func consPrecommitBelow(b []byte, h int64) bool {
+	var m tmcons.Message
+	if proto.Unmarshal(b, &m) != nil {
+		return false
+	}
+	v := m.GetVote()
+	return v != nil && v.Vote != nil && v.Vote.Type == tmproto.PrecommitType && v.Vote.Height+1 == h
+}
+
 // consBigProposal: is this a Proposal whose part total exceeds the protocol maximum? (signature of a known finding)
 func consBigProposal(b []byte) bool {
 	var m tmcons.Message
@@ -209,10 +221,23 @@ func consBigProposal(b []byte) bool {
 }
 
 func FuzzConsensus(f *testing.F) {
-	e := consFuzzEnv(f)
-	for _, s := range consSeeds(e) {
+	e0 := consFuzzEnv(f, 0)
+	for _, s := range consSeeds(e0) {
 		for ps := range consFuzzPeerStates {
 			f.Add(s[0].(byte)|byte(ps<<2), s[1].([]byte))
+		}
+	}
+	// votes and vote-related messages at heights around the FIRST height of a fresh chain (bit 0x40 = that node)
+	for _, h := range []int64{0, 1, 2} {
+		for _, typ := range []tmproto.SignedMsgType{tmproto.PrevoteType, tmproto.PrecommitType} {
+			v := e0.signedVote(1, typ, 0, types.BlockID{}, false)
+			v.Height = h
+			for _, ps := range []int{0, 1} {
+				f.Add(byte(2)|byte(ps<<2)|0x40, wrapCons(&tmcons.Vote{Vote: v.ToProto()}))
+			}
+			f.Add(byte(0)|0x40, wrapCons(&tmcons.HasVote{Height: h, Round: 0, Type: typ, Index: 1}))
+			f.Add(byte(0)|0x40, wrapCons(&tmcons.VoteSetMaj23{Height: h, Round: 0, Type: typ, BlockID: tmproto.BlockID{}}))
+			f.Add(byte(3)|0x40, wrapCons(&tmcons.VoteSetBits{Height: h, Round: 0, Type: typ, BlockID: tmproto.BlockID{}}))
 		}
 	}
 	f.Fuzz(func(t *testing.T, sel byte, data []byte) {
@@ -221,13 +246,18 @@ func FuzzConsensus(f *testing.F) {
 		if len(data) > consMaxMsgSize {
 			return
 		}
+		ei := int(sel>>6) & 1
+		e := consFuzzEnv(t, ei)
+		if fuzzConsDead[ei] {
+			t.Skip("the consensus of this fuzz process's node has halted on an earlier input (reported above)")
+		}
 		ft := tfail{t}
 		e.t = ft
 		if wedged() {
 			t.Skip("the node of this fuzz process was wedged by an earlier input (reported above): nothing more can be learnt from it")
 		}
 		ch := consFuzzChans[sel&3]
-		pstate := consFuzzPeerStates[int(sel>>2)%len(consFuzzPeerStates)]
+		pstate := consFuzzPeerStates[int(sel>>2)&0xF%len(consFuzzPeerStates)]
 		p := newPeer(sel&0x80 != 0)
 		var ps *consensus.PeerState
 		must(ft, "consensus: InitPeer+AddPeer for a new connection (Switch.addPeer)", func() { ps = e.addPeer(p) })
@@ -238,7 +268,14 @@ func FuzzConsensus(f *testing.F) {
 		valid := consDecodes(data)
 		lib.Case("FuzzConsensus", lib.FP(sel, data), valid, "peer:"+pstate, fmt.Sprintf("ch:%#x", ch), "=>"+outcomeClass(o), fmt.Sprintf("valid:%v", valid))
 		if !alive {
-			t.Fatalf("consensus receive routine died (CONSENSUS FAILURE): node wedged by %s on %#x", hx(data), ch)
+			fuzzConsDead[ei] = true
+			if lib.IsKnown(findFirstHeightPrecommit) && ei == 1 && consPrecommitBelow(data, e.h) {
+				lib.ObservedKnown(findFirstHeightPrecommit)
+				lib.ExcludedByKnown(findFirstHeightPrecommit)
+				return
+			}
+			t.Fatalf("CONSENSUS FAILURE: the consensus receive routine died — consensus of this node has halted — after %s on %#x (peer %s, node at height %d step %v)",
+				hx(data), ch, pstate, e.h, e.cs.GetRoundState().Step)
 		}
 		if o.alloc > allocBound(consMaxMsgSize) {
 			if lib.IsKnown(findProposalTotal) && consBigProposal(data) {
@@ -275,8 +312,10 @@ func FuzzConsensus(f *testing.F) {
 
 // closeFuzzEnvs stops the per-process nodes of the fuzz targets (called from TestMain).
 func closeFuzzEnvs() {
-	if fuzzConsEnv != nil {
-		abandonAfter(fuzzConsEnv.close)
+	for _, e := range fuzzConsEnvs {
+		if e != nil {
+			abandonAfter(e.close)
+		}
 	}
 	var all []*fuzzTarget
 	for _, t := range fuzzMempool {
